@@ -522,6 +522,7 @@ RULES = [
 LEVEL_TEXT = ("Static sibling-agreement and dependence rules on MIR: plain mode needs both flags; one selection routine serves both handshake arms with "
               "min(own, peer) as score; the ordering used by the fold over the user-ordered list must read the cipher identity of both candidates (else "
               "ties are broken by list order and two nodes can select different ciphers); the cipher lists lie inside the signed range; the wire id "
-              "tables of encoder and decoder are inverse; failure only when the fold is empty.")
+              "tables of encoder and decoder are inverse; failure only when the fold is empty."
+              " The decoder keeps every advertised cipher: the list loop runs field-length / 5 times (term equivalence) and an entry is dropped because of its id byte only.")
 LEVEL_NOTE = "Decides C06.R1-R6 (necessary conditions). Not decided: which cipher wins for given speeds (value clause); NaN speeds are excluded by the property."
 TECHNIQUE = "MIR closure read-set analysis (comparator totality), constant table extraction and sibling agreement, dominance"
